@@ -113,6 +113,40 @@ def alpha(sc, r):
     return tr
 
 
+# run-time changes issued by another thread at the very instant the poll thread finishes a poll and computes
+# its next wait: every clock read / event operation is a preemption point, schedules are explored
+RACES = [
+    dict(modules=[dict(interval=8, slow=40, dopoll=[(1, 'ok')], reads={'a': [(1, 'ok')]})],
+         env=[(('after', 3), 'interval', 0, 2)], horizon=60),
+    dict(modules=[dict(interval=16, slow=40, dopoll=[(2, 'ok')], reads={})],
+         env=[(('after', 2), 'fast', 0, (True, 1))], horizon=60),
+    dict(modules=[dict(interval=8, slow=24, dopoll=[(1, 'ok')], reads={'a': [(0, 'ok')]}),
+                  dict(interval=8, slow=24, dopoll=[(1, 'ok')], reads={}, readable=True)],
+         env=[(('after', 2), 'interval', 1, 1), (('after', 4), 'fast', 0, (True, 2))], horizon=70),
+]
+
+
+def _race(args):
+    ri, mode, seed, nruns = args
+    from .. import detsched as ds
+    from ..pollworld import run_scenario
+    sc = RACES[ri]
+    out = []
+    if mode == 'dfs':
+        class Run:
+            def __init__(self, r):
+                self.choices = r['raw_choices']
+                self.res = r
+
+        for s in ds.explore(lambda st: Run(run_scenario(sc, st, race=True)), max_preemptions=2, max_runs=nruns, max_depth=400):
+            out.append((s.res['choices'], alpha(sc, s.res)))
+    else:
+        for k in range(nruns):
+            r = run_scenario(sc, ds.RandomStrategy(seed * 7919 + k, stay=0.5 + 0.2 * (k % 3)), race=True)
+            out.append((r['choices'], alpha(sc, r)))
+    return ri, out
+
+
 def _run(sc):
     from ..pollworld import run_scenario
     return alpha(sc, run_scenario(sc))
@@ -131,6 +165,19 @@ def run(chk):
     rnd = random.Random(chk.seed * 1000003 + 17)
     scs = list(CATALOGUE) + [random_scenario(rnd) for _ in range(150 if quick else 3000)]
     traces = pool_map(_run, scs)
+    jobs = []
+    for ri in range(len(RACES)):
+        jobs.append((ri, 'dfs', chk.seed, 120 if quick else 3000))
+        jobs.append((ri, 'rnd', chk.seed + 2, 80 if quick else 2000))
+    seen = set()
+    for ri, out in pool_map(_race, jobs, chunksize=1):
+        for choices, tr in out:
+            if (ri, tuple(choices)) in seen:
+                continue
+            seen.add((ri, tuple(choices)))
+            scs.append(dict(RACES[ri], schedule=choices))
+            traces.append(tr)
+    chk.notes['race_schedules'] = len(seen)
     verdicts, st, trn = validate_traces('Trace_PollerObs', traces, 'Trace_PollerObs.cfg', timeout=1500)
     chk.states += st
     chk.transitions += trn
@@ -150,8 +197,11 @@ def run(chk):
 
 def replay(chk, rep):
     from ..pollworld import run_scenario
+    from .. import detsched as ds
     sc = rep['detail']['scenario']
     sc['env'] = [tuple(e[:3]) + (tuple(e[3]) if isinstance(e[3], list) else e[3],) for e in sc.get('env', [])]
-    for e in alpha(sc, run_scenario(sc)):
+    sched = sc.pop('schedule', None)
+    r = run_scenario(sc, ds.GuidedStrategy(sched), race=True) if sched is not None else run_scenario(sc)
+    for e in alpha(sc, r):
         print(e)
     return 0
